@@ -708,7 +708,13 @@ class StoreWorld(WorldBase):
                 raise Violation('C17.stale.midcall', site, cls, 'an I/O error while checking the file was swallowed and data returned')
             for lab in addressed:
                 m['t'].pop(lab, None)
-            e.extra['loaded'] = self._loaded(e, op)
+            loaded_after = self._loaded(e, op)
+            if (stale == 'must' and self._stale_cls(e) == 'replaced-with-same-mtime' and before is not None and loaded_after is not None
+                    and any(a and not b for a, b in zip(loaded_after, before))):
+                # before the injected error ended the call, frames were read from a file replaced with the same mtime and kept:
+                # the known finding (detection is by modification time), whatever the access site
+                raise Violation('C17.stale', 'Store', 'replaced-with-same-mtime', 'file was replaced-with-same-mtime after the Bus was created, yet a store read returned data (kept by a call that failed later)')
+            e.extra['loaded'] = loaded_after
             return None
         if stale is not None:
             self.probe('access-while-stale')
